@@ -36,7 +36,8 @@ class C12(flow.Spec):
             'encoding (zero/one/ones, byte, word, dword, qword, string, buffer, package), every 5-bit EISA letter code in every position, '
             'always followed by PrettyPrint in the child process; '
             'non-trivial = parse case with at least 4 bytes or lexer case with a non-empty token; distinct = distinct inputs')
-    assumptions = ['kfmt.Fprintf of diagnostics to the error writer is not modelled (the harness passes a discarding writer)',
+    assumptions = ['translator gen/gotrans + Lib/GoOps.v (the meaning given to Go\'s operators and slice reads) for the stream reader tie (C12_reader_model_is_translation)',
+                   'kfmt.Fprintf of diagnostics to the error writer is not modelled (the harness passes a discarding writer)',
                    'header.Length equals the length of the mapped table (validated by the ACPI table loader, property C14)',
                    'tables are smaller than 2^32 - 2048 bytes (payload_ok / no_wrap: within 1 KiB of 4 GiB the uint32 end-offset computation of '
                    'parseNameString can wrap around)',
@@ -62,8 +63,9 @@ class C12(flow.Spec):
                'C12_parse_total_partial_nopanic_relocateNamedObjects, _nopanic_resolveMethodCalls and _nopanic_connectNonNamedObjArgs: these passes never panic and '
                're-establish R / valid indexes / slices inside from ANY state that satisfies them (resolveMethodCalls additionally needs - '
                'and keeps - "every pOpIntNamePathOrMethodCall object carries a []byte value", which is not yet derived from the earlier '
-               'passes; relocateNamedObjects needs the root at slot 0 to be a ScopeBlock); their fuel is NOT analysed; they are NOT yet chained '
-               'after passes 1-2 because parseDeferredBlocks in between is not covered',
+               'passes; relocateNamedObjects needs the root at slot 0 to be a ScopeBlock); their fuel is NOT analysed; relocateNamedObjects is chained with '
+               'mergeScopeDirectives (_resolve_loop) but not with passes 1-2 (the directive-shape hypothesis is not derived from them); resolveMethodCalls / '
+               'connectNonNamedObjArgs are not chained because parseDeferredBlocks before them is not covered',
                'C12_parse_total_partial_nopanic_mergeScopeDirectives: mergeScopeDirectives (Find, scopeOf, moveContents, the three frees, the walk '
                'over the moved objects) never panics from ANY live object of ANY state that satisfies R / valid indexes / slices inside, has a '
                'parentless live ScopeBlock root at slot 0, and in which every Scope directive of the current table has the shape the first pass '
